@@ -226,6 +226,29 @@ def run_track(ctx, case):
     ctx.case(case, any(f is None for f in case["frames"]), labels=mask_labels(case["kind"], case["frames"]))
 
 
+EXTREMES = {"+max": 0x7F7FFFFF, "-max": 0xFF7FFFFF, "+tiny": 0x00000001, "-tiny": 0x80000001, "-0": 0x80000000, "+0": 0, "half-max": 0x7EFFFFFF, "f16-max": 0x477FE000,
+            "2^127": 0x7F000000, "one": 0x3F800000}
+
+
+def enum_extremes(tier):
+    """every frame of a short track filled with ONE extreme finite value (or two alternating ones): sums, products and differences of the
+    components overflow or vanish although every component is a perfectly good sample; x all masks over 4 frames"""
+    names = sorted(EXTREMES)
+    for kind in KINDS:
+        pf = specs.PER_FRAME[kind]
+        for a in names:
+            for b in (a, "+max", "-max", "one"):
+                for mask in range(1, 16):
+                    frames = []
+                    for i in range(4):
+                        if not (mask >> i) & 1:
+                            frames.append(None)
+                        else:
+                            vals = [EXTREMES[a] if (i + c) % 2 == 0 else EXTREMES[b] for c in range(pf)]
+                            frames.append(vals[0] if pf == 1 else vals)
+                    yield {"kind": kind, "frames": frames, "_values": f"{a}/{b}"}
+
+
 def blocks_strategy(tier):
     def one(t):
         return st.fixed_dictionaries({"spec": specs.SPEC[t](tier, 1), "hints": specs.HINTS})
@@ -337,6 +360,9 @@ def run_boundary(ctx, case):
 
 SUBS.append(Sub("boundary-masks", run_boundary, kind="enum", enumerate=enum_boundary, shards=(12, 16),
                 rule="single tracks of B+50 frames with gaps placed exactly before / after / across frame B, B in {256, 1024, 4096, 65536} (16384 for force/torque); finite, enumerated"))
+SUBS.append(Sub("extreme-values", run_track, kind="enum", enumerate=enum_extremes, shards=(4, 16),
+                rule="4 track kinds x 10 extreme finite values (largest, smallest, signed zeros, 2^127, float16's largest) alone and alternating with +-max / 1.0 x all 15 non-empty "
+                     "masks over 4 frames; finite, enumerated", nontrivial_required=False))
 SUBS.append(Sub("coupled-dtypes", run_block, strategy=coupled_strategy, budget=(300, 8000), shards=(2, 8),
                 rule="force/torque and platform-data blocks whose coupled arrays come in different dtypes (application point as int16/32/64, uint8, float16 on an exactly "
                      "representable grid; force / torque as float32/64 in either byte order): run tables and every present value after decode"))
